@@ -327,7 +327,7 @@ thread_local! {
 }
 
 /// Number of steps begun so far (a parallel block is one step).  A watchdog thread ends the process when one step
-/// runs longer than RT_STEP_TIMEOUT seconds (default 20): code under test that does not terminate -- an iterator that
+/// runs longer than RT_STEP_TIMEOUT seconds (default 60): code under test that does not terminate -- an iterator that
 /// never returns None under `collect`, a `next` cycle -- must not stall the whole check; the orchestrator completes the
 /// dangling event line like after any other death of the process and resumes after that step.
 static BEAT: std::sync::atomic::AtomicU64 = std::sync::atomic::AtomicU64::new(0);
@@ -336,7 +336,7 @@ fn start_watchdog() {
     if cfg!(miri) {
         return; // Miri wants every thread joined at exit; its runs are bounded by the orchestrator's process timeout
     }
-    let limit: u64 = std::env::var("RT_STEP_TIMEOUT").ok().and_then(|s| s.parse().ok()).unwrap_or(20);
+    let limit: u64 = std::env::var("RT_STEP_TIMEOUT").ok().and_then(|s| s.parse().ok()).unwrap_or(60);
     std::thread::spawn(move || {
         let mut last = u64::MAX;
         let mut since = std::time::Instant::now();
